@@ -245,7 +245,7 @@ pub fn type_name(ty: u8) -> &'static str {
 
 #[derive(Clone, Debug, PartialEq, Eq, Serialize, Deserialize)]
 pub enum XOp {
-    /// `via`: 0 Rc::new, 1 From<T>, 2 From<Box<T>>
+    /// `via`: 0 Rc::new, 1 From<T>, 2 From<Box<T>>, 3 Rc::pin
     New { probe: bool, via: u8 },
     Clone(u16),
     DropRoot(u16),
@@ -438,9 +438,10 @@ impl<T: Payload> X<T> {
         }
         let id = self.m.n() as u32;
         let v = T::make(id);
-        let h = match via % 3 {
+        let h = match via % 4 {
             0 => lib(|| Rc::new(v)),
             1 => lib(|| Rc::from(v)),
+            3 => lib(|| unsafe { std::pin::Pin::into_inner_unchecked(Rc::pin(v)) }),
             _ => {
                 let b = Box::new(v);
                 lib(|| Rc::from(b))
@@ -881,6 +882,9 @@ impl<T: Payload> X<T> {
                 if got == Some(false) {
                     violate(View::Consume, "get_mut returned a reference to a different value");
                 }
+                if !lib(|| unsafe { Rc::get_mut_unchecked(&mut self.roots[i]).ok(pid) }) {
+                    violate(View::Consume, "get_mut_unchecked returned a reference to a different value");
+                }
                 if want {
                     self.lab(L_GETMUT_SOME);
                 }
@@ -1119,7 +1123,7 @@ fn xop_strategy(id: &str) -> BoxedStrategy<XOp> {
     let s = any::<u16>;
     let consume: u32 = if id == "C12" { 3 } else { 1 };
     prop_oneof![
-        8 => (any::<bool>(), 0u8..3).prop_map(|(probe, via)| XOp::New { probe, via }),
+        8 => (any::<bool>(), 0u8..4).prop_map(|(probe, via)| XOp::New { probe, via }),
         5 => s().prop_map(XOp::Clone),
         10 => s().prop_map(XOp::DropRoot),
         14 => (s(), s(), 0u8..6).prop_map(|(owner, target, a)| XOp::Store { owner, target, adopt: a > 0 }),
